@@ -9,25 +9,34 @@ from vlib.build import surface_from
 
 PROPERTY = "C18"
 RULE = ("Well-shaped triangulated surfaces (min angle >= 8 deg): closed bases (tetrahedron, octahedron, icosahedron, bipyramids, "
-        "antiprisms, tori; 1-3 splits / flips / edge splits), bordered bases (grids, cylinders, fans, strips, polygons, Delaunay "
-        "disks with ear removals and height fields) and 'roof' panels (triangulated grids folded along 1-2 grid lines so that "
-        "the folds are feature edges), jittered and randomly renumbered, x order 1-6 x elements vertices/faces x features "
-        "on/off x n_smooth 0-3 (explicit attach weight) x cotan/uniform (x smooth_normals / cad_correction for the vertex field). "
-        "Oracles: unit modulus, constraints kept / branch tangent to the single constrained edge, face-field singularity "
-        "quantum and index sum 4*chi, harmonic extension recomputed from the library's connection Laplacian (n_smooth=0), "
-        "Hermitian / flat-reduces-to-scalar Laplacian and trivial holonomy on planar meshes, and invariance of the field "
-        "measured against mesh edges under vertex renumbering + face-start rotation (bordered, well-posed constraints). "
-        "non-trivial = the mesh has >=1 free element and (order != 4 or features on); distinct = distinct realised cases.")
+        "antiprisms, tori; exactly regular, or with 1-3 splits / flips / edge splits and jitter), bordered bases (grids, cylinders, "
+        "fans, strips, polygons, Delaunay disks with ear removals and height fields) and 'roof' panels (triangulated grids with "
+        "per-quad diagonals, folded along 1-2 grid lines so that the folds are feature edges), jittered, rigidly moved and "
+        "randomly renumbered, x order 1-6 x elements vertices/faces x features on/off x n_smooth 0-3 (explicit attach weight) x "
+        "cotan/uniform (x smooth_normals / cad_correction for the vertex field). Oracles: constraints are unit frames, unit "
+        "modulus everywhere, constraints kept / a branch tangent to the single constrained edge, face-field singularity quantum "
+        "4/order and index sum 4*chi, normalised harmonic extension recomputed from the library's connection Laplacian "
+        "(n_smooth=0), Hermitian Laplacian whose moduli are the scalar Laplacian's, flat connection = scalar Laplacian and "
+        "trivial holonomy on embedded planar meshes, and invariance of the field measured against mesh edges in the connection's "
+        "metric under vertex renumbering + face-start rotation (bordered, well-posed constraints). "
+        "non-trivial = the mesh has >=1 free element and (order != 4 or features on) [laplacian sub-check: an interior edge and "
+        "order != 4]; distinct = distinct realised cases.")
 ASSUMPTIONS = [
-    "triangulated oriented manifold surfaces, min angle >= 8 deg, max angle <= 170 deg",
-    "smooth_attach_weight is given explicitly whenever n_smooth > 0 (no ARPACK start vector)",
-    "an element whose un-normalised solution vanishes (|x| <= 1e-10, the library's own threshold; exact symmetry of mesh and "
-    "constraints) has no direction and is exempt from the unit-modulus oracle; it is counted under the label 'vanishing-element'",
+    "triangulated oriented manifold surfaces, min angle >= 8 deg, max angle <= 170 deg; for a vertex field every vertex has a "
+    "tangent plane (angle-weighted sum of incident unit face normals has norm >= 1e-3)",
+    "smooth_attach_weight is given explicitly whenever n_smooth > 0 (no ARPACK start vector); numpy.random is seeded per case",
+    "a case whose partitioned system is numerically singular (cond > 1e12: negative cotangent weights of a non-Delaunay mesh, "
+    "attach weight on an eigenvalue) defines no solution and is discarded",
+    "an element left at |var| <= 1e-10 (the library's own 'no direction' threshold) is exempt from the unit-modulus oracle only "
+    "where a zero is forced: the harness's own un-normalised solution vanishes there (constrained solve), or every vector of "
+    "the lowest eigenspace of L x = lambda A x (vertices) / L x = lambda x (faces) vanishes there (closed surface, no "
+    "constraint); such cases are counted under the label 'vanishing-element'",
     "comparisons against a recomputed solve / between two numberings are made only when the linear systems involved have "
-    "condition number <= 1e6 and no un-normalised value is below 1e-4 (reported as discards otherwise)",
+    "condition number <= 1e6 and (numberings) no un-normalised value is below 1e-4 (reported as discards otherwise)",
     "numbering invariance is asserted only where the constraints are well posed: no face with two constrained edges, no "
-    "border-vertex angle at a rounding tie of the corner detector, no (near-)cancelling constraint sum, no dihedral angle at "
-    "the feature threshold",
+    "vertex angle at a rounding tie of the corner detector, no (near-)cancelling constraint sum, no dihedral angle at "
+    "the feature threshold; face order is never permuted",
+    "'planar' in the laplacian sub-check means embedded in the plane z=0 with one orientation (edge flips can fold a sheet over)",
 ]
 
 TOL_UNIT = 1e-9
@@ -808,10 +817,10 @@ def self_test():
 
 
 SUBCHECKS = [
-    SubCheck("field", field_case(), fn_field, quick=800, thorough=5000),
-    SubCheck("renumber_vertices", renumber_case("vertices"), fn_renumber, quick=160, thorough=1000),
-    SubCheck("renumber_faces", renumber_case("faces"), fn_renumber, quick=160, thorough=1000),
-    SubCheck("laplacian", laplacian_case(), fn_laplacian, quick=240, thorough=1200),
+    SubCheck("field", field_case(), fn_field, quick=4000, thorough=15000),
+    SubCheck("renumber_vertices", renumber_case("vertices"), fn_renumber, quick=800, thorough=3000),
+    SubCheck("renumber_faces", renumber_case("faces"), fn_renumber, quick=800, thorough=3000),
+    SubCheck("laplacian", laplacian_case(), fn_laplacian, quick=1000, thorough=3000),
 ]
 
 
